@@ -380,6 +380,20 @@ def rule_D6_nondet(tree: Tree) -> RuleResult:
             r.ob(False, Finding("D6b", f"{f.key}:nondeterminism:{what.replace(' ', '-')}", f"{f.qualname}: {what} makes the export depend on something other than capture, secrets and options", f.module.line(n)))
         if not bad:
             r.ob(True)
+    # the sources compile without warnings: an invalid escape sequence in a string literal ("\_") is a SyntaxWarning today — with warnings turned into errors
+    # (PYTHONWARNINGS=error, python -W error) the module no longer imports and the run produces nothing — and a SyntaxError in a later Python
+    import warnings
+    for m in sorted(tree.modules.values(), key=lambda x: x.relpath):
+        r.instances += 1
+        msg = None
+        with warnings.catch_warnings():
+            warnings.simplefilter("error")
+            try:
+                compile(m.src, m.relpath, "exec", dont_inherit=True)
+            except (SyntaxError, SyntaxWarning, DeprecationWarning) as e:
+                msg = f"{type(e).__name__}: {e}"
+        r.ob(msg is None, Finding("D6b", f"{m.short}:compiles-without-warnings", f"{m.relpath} does not compile when warnings are errors ({msg}): whether the program runs at all "
+                                                                                f"then depends on PYTHONWARNINGS / -W of the environment", m.relpath))
     # mutable default arguments anywhere in flow code (state that survives a run())
     for f in sorted(reach, key=lambda x: x.key):
         a = f.node.args
